@@ -708,43 +708,67 @@ class Context:
 
                 raise JSSyntaxError(f"JSON.parse: {e}")
 
+        escapes = {
+            '"': '\\"', "\\": "\\\\", "\b": "\\b", "\f": "\\f",
+            "\n": "\\n", "\r": "\\r", "\t": "\\t",
+        }  # fmt: skip
+
+        def quote(s):
+            # QuoteJSONString: only ", \, control characters and lone surrogates
+            out = ['"']
+            for i, ch in enumerate(s):
+                c = ord(ch)
+                if ch in escapes:
+                    out.append(escapes[ch])
+                elif c < 0x20:
+                    out.append("\\u%04x" % c)
+                elif 0xD800 <= c <= 0xDBFF and "\udc00" <= s[i + 1 : i + 2] <= "\udfff":
+                    out.append(ch)
+                elif 0xDC00 <= c <= 0xDFFF and i and "\ud800" <= s[i - 1] <= "\udbff":
+                    out.append(ch)
+                elif 0xD800 <= c <= 0xDFFF:
+                    out.append("\\u%04x" % c)
+                else:
+                    out.append(ch)
+            out.append('"')
+            return "".join(out)
+
         def stringify_fn(*args):
-            value = args[0] if args else UNDEFINED
+            from .errors import JSTypeError
 
-            # Convert JS value to Python for json.dumps, handling undefined specially
-            def to_json_value(v):
-                if v is UNDEFINED:
-                    return None  # Will be filtered out for object properties
+            stack = []  # the objects being serialised: finding one again is a cycle
+
+            def serialize(v):
+                """The JSON text of v, or None where ECMAScript yields undefined."""
                 if v is NULL:
-                    return None
+                    return "null"
                 if isinstance(v, bool):
-                    return v
+                    return "true" if v else "false"
                 if isinstance(v, (int, float)):
-                    return v
+                    finite = isinstance(v, int) or math.isfinite(v)
+                    return to_string(v) if finite else "null"
                 if isinstance(v, str):
-                    return v
-                if isinstance(v, JSArray):
-                    # For arrays, undefined becomes null
-                    return [
-                        None if elem is UNDEFINED else to_json_value(elem)
-                        for elem in v._elements
-                    ]
-                if isinstance(v, JSObject):
-                    # For objects, skip undefined values
-                    result = {}
+                    return quote(v)
+                if not isinstance(v, JSObject) or isinstance(v, JSCallableObject):
+                    return None  # undefined, functions
+                if any(v is seen for seen in stack):
+                    raise JSTypeError("Converting circular structure to JSON")
+                stack.append(v)
+                try:
+                    if isinstance(v, JSArray):
+                        items = [serialize(elem) or "null" for elem in v._elements]
+                        return "[" + ",".join(items) + "]"
+                    members = []
                     for k, val in v._properties.items():
-                        if val is not UNDEFINED:
-                            result[k] = to_json_value(val)
-                    return result
-                return None
+                        text = serialize(val)
+                        if text is not None:
+                            members.append(quote(k) + ":" + text)
+                    return "{" + ",".join(members) + "}"
+                finally:
+                    stack.pop()
 
-            py_value = to_json_value(value)
-            try:
-                return json.dumps(py_value, separators=(",", ":"))
-            except (TypeError, ValueError) as e:
-                from .errors import JSTypeError
-
-                raise JSTypeError(f"JSON.stringify: {e}")
+            text = serialize(args[0] if args else UNDEFINED)
+            return UNDEFINED if text is None else text
 
         json_obj.set("parse", parse_fn)
         json_obj.set("stringify", stringify_fn)
